@@ -4365,6 +4365,102 @@ def peewee_shortcuts(modules, log):
 _KNOWN_FUNCS: set = set()
 
 
+def iter_temp_to_for(fn, log, modname):
+    """x = <iterable expression>        ->   for t in <iterable expression>:
+       for t in x:                            (x bound once, read once, by the loop that follows the binding directly)"""
+    stores, loads = {}, {}
+    for n in ast.walk(fn):
+        if isinstance(n, ast.Name):
+            (stores if isinstance(n.ctx, ast.Store) else loads).setdefault(n.id, []).append(n)
+    done = []
+
+    def block(stmts):
+        out = []
+        i = 0
+        while i < len(stmts):
+            st = stmts[i]
+            nxt = stmts[i + 1] if i + 1 < len(stmts) else None
+            if isinstance(st, ast.Assign) and len(st.targets) == 1 and isinstance(st.targets[0], ast.Name) and isinstance(nxt, ast.For) and isinstance(nxt.iter, ast.Name) and nxt.iter.id == st.targets[0].id and isinstance(st.value, ast.Call):
+                x = st.targets[0].id
+                if len(stores.get(x, [])) == 1 and len(loads.get(x, [])) == 1 and not any(isinstance(y, (ast.NamedExpr, ast.Yield, ast.Await)) for y in ast.walk(st.value)):
+                    nxt.iter = st.value
+                    done.append(x)
+                    i += 1
+                    continue
+            for f_ in ("body", "orelse", "finalbody"):
+                if hasattr(st, f_) and isinstance(getattr(st, f_), list) and not isinstance(st, (ast.FunctionDef, ast.AsyncFunctionDef, ast.ClassDef)):
+                    setattr(st, f_, block(getattr(st, f_)))
+            out.append(st)
+            i += 1
+        return out
+
+    fn.body = block(fn.body)
+    if done:
+        log.append(f"iterable held in a single-use local written into its loop {modname}:{fn.name} {done}")
+
+
+_PURE_TEST_CALLS = ("datetime.now", "datetime.datetime.now", "time.time", "time.monotonic", "len", "timedelta", "datetime.timedelta", "isinstance")
+
+
+def test_temps_to_condition(fn, log, modname):
+    """a = <comparison>; b = <comparison>; if a or b: ...   ->   if <comparison> or <comparison>: ...
+    (locals bound once to a comparison over pure / clock reads, read once, by the `if` that follows the bindings directly)"""
+    stores, loads = {}, {}
+    for n in ast.walk(fn):
+        if isinstance(n, ast.Name):
+            (stores if isinstance(n.ctx, ast.Store) else loads).setdefault(n.id, []).append(n)
+    done = []
+
+    def pure(v):
+        if not isinstance(v, (ast.Compare, ast.BoolOp)):
+            return False
+        for y in ast.walk(v):
+            if isinstance(y, (ast.NamedExpr, ast.Yield, ast.Await, ast.Lambda)):
+                return False
+            if isinstance(y, ast.Call) and not (ast.unparse(y.func) in _PURE_TEST_CALLS or (isinstance(y.func, ast.Attribute) and y.func.attr in ("total_seconds", "timestamp"))):
+                return False
+        return True
+
+    def block(stmts):
+        out = list(stmts)
+        i = 0
+        while i < len(out):
+            st = out[i]
+            if isinstance(st, ast.If):
+                # the run of qualifying bindings directly above the `if`
+                j = i
+                env = {}
+                while j > 0:
+                    p_ = out[j - 1]
+                    if isinstance(p_, ast.Assign) and len(p_.targets) == 1 and isinstance(p_.targets[0], ast.Name) and pure(p_.value):
+                        x = p_.targets[0].id
+                        in_test = [n for n in ast.walk(st.test) if isinstance(n, ast.Name) and n.id == x]
+                        if len(stores.get(x, [])) == 1 and len(loads.get(x, [])) == 1 and len(in_test) == 1:
+                            env[x] = p_.value
+                            j -= 1
+                            continue
+                    break
+                if env:
+                    class R(ast.NodeTransformer):
+                        def visit_Name(self, n):
+                            return ast.copy_location(ast.parse(ast.unparse(env[n.id]), mode="eval").body, n) if n.id in env and isinstance(n.ctx, ast.Load) else n
+
+                    st.test = R().visit(st.test)
+                    ast.fix_missing_locations(st)
+                    del out[j:i]
+                    i = j
+                    done.extend(sorted(env))
+            for f_ in ("body", "orelse", "finalbody"):
+                if hasattr(st, f_) and isinstance(getattr(st, f_), list) and not isinstance(st, (ast.FunctionDef, ast.AsyncFunctionDef, ast.ClassDef)):
+                    setattr(st, f_, block(getattr(st, f_)))
+            i += 1
+        return out
+
+    fn.body = block(fn.body)
+    if done:
+        log.append(f"comparison temporaries written into the test they feed {modname}:{fn.name} {done}")
+
+
 def two_arm_to_ifexp(fn, log, modname):
     """`if c: x = A` / `else: x = B` with x a local bound nowhere else and read exactly once afterwards  ->  `x = A if c else B`
     (the spelled-out form of a conditional expression; the single read lets the temporary be written back in place later)"""
@@ -4747,6 +4843,8 @@ def run(modules, known_funcs):
                 work_then_continue_to_else(n, log, mi.name)
                 truth_alias(n, log, mi.name)
                 eafp_to_lbyl(n, log, mi.name)
+                iter_temp_to_for(n, log, mi.name)
+                test_temps_to_condition(n, log, mi.name)
     # spelled-out conditional expressions: only in functions that changed since the rules were written (the rules know the
     # statement form where the original has it)
     fps = known_fingerprints()
